@@ -28,6 +28,7 @@ type conn struct {
 	returnedLive bool // a Return of this conn completed before shutdown began
 	handedOut    int
 	closedBy     []string
+	owned        bool // some worker got this connection before
 }
 
 func (c *conn) Usable() bool         { return !c.unusable && c.closes == 0 }
@@ -147,7 +148,11 @@ func Run(s *simrt.Sim, a *harness.Args, r *harness.Result) {
 					continue
 				}
 				c := pc.(*conn)
-				fresh := c.id > before
+				// (not "created during this Get call": another worker may have
+				// created, used and returned it while this one waited)
+				_ = before
+				fresh := !c.owned
+				c.owned = true
 				now := time.Now()
 				s.Logf("%s got c%d for %s fresh=%v", name, c.id, o.key, fresh)
 				if c.owner != "" {
